@@ -14,8 +14,10 @@ Deciding monitors (post-conditions on the REAL code, jax x64):
 * ``pulse.hardware`` — ``rydberg_interaction`` / ``rydberg_drive`` / ``transmon_interaction`` / ``transmon_drive`` (sums of several
   drives with callable / constant amplitude, phase, detuning / frequency: parameter re-ordering) evaluated as matrices
   ``qp.matrix(H(params, t))`` vs hand-built matrices from the documented formulas, and their evolution vs solve_ivp.
-* ``pulse.grad``     — ``pulse_odegen`` Jacobian vs the reference derivative (8th-order central differences of the solve_ivp
-  propagator's expectation value); thorough tier and a few quick cases.
+
+NOT decided here: the last sentence of the statement (``stoch_pulse_grad`` / ``pulse_odegen`` vs automatic differentiation).  Each
+case costs ~10-30 s of jit compilation and the stochastic estimator needs a statistical oracle; this part of the design is left
+unimplemented (see META["level_note"]).
 """
 import numpy as np
 
@@ -29,9 +31,9 @@ META = {
     "level_text": "Random parametrized Hamiltonians on 1-3 qubits with constant, smooth, windowed and piecewise-constant coefficients and random "
                   "time windows are evolved by the real code with tight ODE tolerances and compared with an independent integration of the "
                   "Schroedinger equation; hardware Hamiltonians are compared with matrices built from the documented formulas. Held on the cases observed.",
-    "level_note": "Trusts scipy (solve_ivp, expm) and numpy. stoch_pulse_grad (a stochastic estimator) is not decided (its documented sampling "
-                  "error needs a statistical oracle whose cost, ~10 s of jit per case, does not fit the budgets); pulse_odegen is decided on a "
-                  "small number of cases. Tolerances: 1e-7 with atol=rtol=1e-10..1e-11 passed through, 2e-5 with the default odeint tolerances "
+    "level_note": "Trusts scipy (solve_ivp, expm) and numpy. The pulse gradient transforms (stoch_pulse_grad, pulse_odegen) are NOT decided: "
+                  "each case needs 10-30 s of jit compilation and the stochastic estimator needs a statistical oracle, which does not fit the "
+                  "budgets; only the evolution, convenience functions and hardware Hamiltonians are monitored. Tolerances: 1e-7 with atol=rtol=1e-10..1e-11 passed through, 2e-5 with the default odeint tolerances "
                   "(1.4e-8), 1e-5 for discontinuous (pwc/rect) coefficients.",
     "shards": {"quick": 3, "thorough": 16},
     "budget_s": {"quick": 55, "thorough": 420},
@@ -157,7 +159,7 @@ def run(ctx):
             nb = int(rng.integers(1, 7))
             pv = np.round(rng.uniform(-2, 2, size=nb), 4)
             ts = np.concatenate([rng.uniform(t0 - 1, t1 + 1, size=12), [t0, t0 + (t1 - t0) / nb * 0.5, t1 - 1e-9]])
-            which = ci // 8 % 4
+            which = (ci // 8 + ctx.shard) % 4
             if which == 0:      # pwc((t0, t1)) / pwc(T)
                 scalar_span = rng.random() < 0.3
                 span = float(t1 - t0) if scalar_span else (float(t0), float(t1))
@@ -232,110 +234,111 @@ def run(ctx):
 
         # ======================================================================================= hardware Hamiltonians
         if kind == "hardware":
-            n = int(rng.integers(1, 4))
-            wires = list(range(n))
-            t = float(np.round(rng.uniform(0, 2), 3))
-            hw = "rydberg" if (ci // 8) % 2 == 0 else "transmon"
-            terms_np = []       # list of functions (params_flat_dict, t) -> matrix
-            params = []
-            pieces = []
-            desc = {"hw": hw, "n": n, "t": t, "parts": []}
-            nq = lambda w: (PAULI["I"] - PAULI["Z"]) / 2  # noqa: E731
+            for rep in range(5 if ctx.quick else 8):
+                n = int(rng.integers(1, 4))
+                wires = list(range(n))
+                t = float(np.round(rng.uniform(0, 2), 3))
+                hw = "rydberg" if (ci // 8 + rep + ctx.shard) % 2 == 0 else "transmon"
+                terms_np = []       # list of functions (params_flat_dict, t) -> matrix
+                params = []
+                pieces = []
+                desc = {"hw": hw, "n": n, "t": t, "parts": []}
+                nq = lambda w: (PAULI["I"] - PAULI["Z"]) / 2  # noqa: E731
 
-            def emb(M1, w):
-                return word_matrix({}, n) if M1 is None else np.kron(np.kron(np.eye(2 ** w), M1), np.eye(2 ** (n - w - 1)))
+                def emb(M1, w):
+                    return word_matrix({}, n) if M1 is None else np.kron(np.kron(np.eye(2 ** w), M1), np.eye(2 ** (n - w - 1)))
 
-            def field(name, scale=1.0):
-                """constant or callable field; returns (pl_arg, np_fn(t), param or None, description)"""
-                if rng.random() < 0.5:
-                    v = float(np.round(rng.uniform(0.1, 1.5), 3)) * scale
-                    return v, (lambda tt: v), None, v
-                c = np.round(rng.uniform(0.2, 1.5, size=2), 3)
-                return (lambda p_, tt: p_[0] * jnp.cos(p_[1] * tt) ** 2 + 0.1), (lambda tt: c[0] * np.cos(c[1] * tt) ** 2 + 0.1), c, ["callable", c.tolist()]
+                def field(name, scale=1.0):
+                    """constant or callable field; returns (pl_arg, np_fn(t), param or None, description)"""
+                    if rng.random() < 0.5:
+                        v = float(np.round(rng.uniform(0.1, 1.5), 3)) * scale
+                        return v, (lambda tt: v), None, v
+                    c = np.round(rng.uniform(0.2, 1.5, size=2), 3)
+                    return (lambda p_, tt: p_[0] * jnp.cos(p_[1] * tt) ** 2 + 0.1), (lambda tt: c[0] * np.cos(c[1] * tt) ** 2 + 0.1), c, ["callable", c.tolist()]
 
-            if hw == "rydberg":
-                if n >= 2 and rng.random() < 0.7:
-                    coords = [[float(v) for v in np.round(rng.uniform(0, 12, size=2), 2)] for _ in range(n)]
-                    C6 = float(np.round(rng.uniform(1000, 900000), 1)) if rng.random() < 0.5 else 862690.0
-                    pieces.append(qp.pulse.rydberg_interaction(coords, wires=wires, interaction_coeff=C6))
+                if hw == "rydberg":
+                    if n >= 2 and rng.random() < 0.7:
+                        coords = [[float(v) for v in np.round(rng.uniform(0, 12, size=2), 2)] for _ in range(n)]
+                        C6 = float(np.round(rng.uniform(1000, 900000), 1)) if rng.random() < 0.5 else 862690.0
+                        pieces.append(qp.pulse.rydberg_interaction(coords, wires=wires, interaction_coeff=C6))
+                        M = np.zeros((2 ** n, 2 ** n), dtype=complex)
+                        for i in range(n):
+                            for j in range(i + 1, n):
+                                Rij = float(np.linalg.norm(np.array(coords[i]) - np.array(coords[j])))
+                                M = M + 2 * np.pi * C6 / Rij ** 6 * emb(nq(i), i) @ emb(nq(j), j)
+                        terms_np.append(lambda tt, M=M: M)
+                        desc["parts"].append({"interaction": coords, "C6": C6})
+                    for _ in range(int(rng.integers(1, 3))):
+                        dw = sorted(int(v) for v in rng.choice(n, size=int(rng.integers(1, n + 1)), replace=False))
+                        a_pl, a_np, a_p, a_d = field("amp")
+                        ph_pl, ph_np, ph_p, ph_d = field("phase")
+                        de_pl, de_np, de_p, de_d = field("det")
+                        pieces.append(qp.pulse.rydberg_drive(a_pl, ph_pl, de_pl, dw))
+                        for pp in (a_p, ph_p, de_p):
+                            if pp is not None:
+                                params.append(jnp.array(pp))
+
+                        def Hd(tt, dw=dw, a_np=a_np, ph_np=ph_np, de_np=de_np):
+                            Om, ph, de = 2 * np.pi * a_np(tt), ph_np(tt), 2 * np.pi * de_np(tt)
+                            M = np.zeros((2 ** n, 2 ** n), dtype=complex)
+                            for q in dw:
+                                M = M + 0.5 * Om * (np.cos(ph) * emb(PAULI["X"], q) - np.sin(ph) * emb(PAULI["Y"], q)) - de * emb(nq(q), q)
+                            return M
+                        terms_np.append(Hd)
+                        desc["parts"].append({"drive_wires": dw, "amplitude": a_d, "phase": ph_d, "detuning": de_d})
+                else:
+                    freqs = [float(v) for v in np.round(rng.uniform(3, 6, size=n), 3)]
+                    conns = [(i, i + 1) for i in range(n - 1)] if n > 1 else []
+                    g = [float(v) for v in np.round(rng.uniform(0.01, 0.2, size=len(conns)), 4)]
+                    pieces.append(qp.pulse.transmon_interaction(qubit_freq=freqs, connections=conns, coupling=g, wires=wires))
                     M = np.zeros((2 ** n, 2 ** n), dtype=complex)
-                    for i in range(n):
-                        for j in range(i + 1, n):
-                            Rij = float(np.linalg.norm(np.array(coords[i]) - np.array(coords[j])))
-                            M = M + 2 * np.pi * C6 / Rij ** 6 * emb(nq(i), i) @ emb(nq(j), j)
+                    b = (PAULI["X"] + 1j * PAULI["Y"]) / 2      # documented: b := (sigma^x + i sigma^y)/2
+                    for q in range(n):
+                        M = M + 2 * np.pi * freqs[q] * emb(b.conj().T @ b, q)
+                    for (i, j), gij in zip(conns, g):
+                        M = M + 2 * np.pi * gij * (emb(b.conj().T, i) @ emb(b, j) + emb(b.conj().T, j) @ emb(b, i))
                     terms_np.append(lambda tt, M=M: M)
-                    desc["parts"].append({"interaction": coords, "C6": C6})
-                for _ in range(int(rng.integers(1, 3))):
-                    dw = sorted(int(v) for v in rng.choice(n, size=int(rng.integers(1, n + 1)), replace=False))
-                    a_pl, a_np, a_p, a_d = field("amp")
-                    ph_pl, ph_np, ph_p, ph_d = field("phase")
-                    de_pl, de_np, de_p, de_d = field("det")
-                    pieces.append(qp.pulse.rydberg_drive(a_pl, ph_pl, de_pl, dw))
-                    for pp in (a_p, ph_p, de_p):
-                        if pp is not None:
-                            params.append(jnp.array(pp))
+                    desc["parts"].append({"transmon_interaction": freqs, "coupling": g})
+                    for _ in range(int(rng.integers(1, 3))):
+                        dw = sorted(int(v) for v in rng.choice(n, size=int(rng.integers(1, n + 1)), replace=False))
+                        a_pl, a_np, a_p, a_d = field("amp")
+                        ph_pl, ph_np, ph_p, ph_d = field("phase")
+                        fr_pl, fr_np, fr_p, fr_d = field("freq")
+                        pieces.append(qp.pulse.transmon_drive(a_pl, ph_pl, fr_pl, dw))
+                        for pp in (a_p, ph_p, fr_p):
+                            if pp is not None:
+                                params.append(jnp.array(pp))
 
-                    def Hd(tt, dw=dw, a_np=a_np, ph_np=ph_np, de_np=de_np):
-                        Om, ph, de = 2 * np.pi * a_np(tt), ph_np(tt), 2 * np.pi * de_np(tt)
-                        M = np.zeros((2 ** n, 2 ** n), dtype=complex)
-                        for q in dw:
-                            M = M + 0.5 * Om * (np.cos(ph) * emb(PAULI["X"], q) - np.sin(ph) * emb(PAULI["Y"], q)) - de * emb(nq(q), q)
-                        return M
-                    terms_np.append(Hd)
-                    desc["parts"].append({"drive_wires": dw, "amplitude": a_d, "phase": ph_d, "detuning": de_d})
-            else:
-                freqs = [float(v) for v in np.round(rng.uniform(3, 6, size=n), 3)]
-                conns = [(i, i + 1) for i in range(n - 1)] if n > 1 else []
-                g = [float(v) for v in np.round(rng.uniform(0.01, 0.2, size=len(conns)), 4)]
-                pieces.append(qp.pulse.transmon_interaction(qubit_freq=freqs, connections=conns, coupling=g, wires=wires))
-                M = np.zeros((2 ** n, 2 ** n), dtype=complex)
-                b = (PAULI["X"] + 1j * PAULI["Y"]) / 2      # documented: b := (sigma^x + i sigma^y)/2
-                for q in range(n):
-                    M = M + 2 * np.pi * freqs[q] * emb(b.conj().T @ b, q)
-                for (i, j), gij in zip(conns, g):
-                    M = M + 2 * np.pi * gij * (emb(b.conj().T, i) @ emb(b, j) + emb(b.conj().T, j) @ emb(b, i))
-                terms_np.append(lambda tt, M=M: M)
-                desc["parts"].append({"transmon_interaction": freqs, "coupling": g})
-                for _ in range(int(rng.integers(1, 3))):
-                    dw = sorted(int(v) for v in rng.choice(n, size=int(rng.integers(1, n + 1)), replace=False))
-                    a_pl, a_np, a_p, a_d = field("amp")
-                    ph_pl, ph_np, ph_p, ph_d = field("phase")
-                    fr_pl, fr_np, fr_p, fr_d = field("freq")
-                    pieces.append(qp.pulse.transmon_drive(a_pl, ph_pl, fr_pl, dw))
-                    for pp in (a_p, ph_p, fr_p):
-                        if pp is not None:
-                            params.append(jnp.array(pp))
+                        def Hd(tt, dw=dw, a_np=a_np, ph_np=ph_np, fr_np=fr_np):
+                            Om, ph, nu = 2 * np.pi * a_np(tt), ph_np(tt), 2 * np.pi * fr_np(tt)
+                            M = np.zeros((2 ** n, 2 ** n), dtype=complex)
+                            for q in dw:
+                                M = M + Om * np.sin(ph + nu * tt) * emb(PAULI["Y"], q)
+                            return M
+                        terms_np.append(Hd)
+                        desc["parts"].append({"drive_wires": dw, "amplitude": a_d, "phase": ph_d, "freq": fr_d})
 
-                    def Hd(tt, dw=dw, a_np=a_np, ph_np=ph_np, fr_np=fr_np):
-                        Om, ph, nu = 2 * np.pi * a_np(tt), ph_np(tt), 2 * np.pi * fr_np(tt)
-                        M = np.zeros((2 ** n, 2 ** n), dtype=complex)
-                        for q in dw:
-                            M = M + Om * np.sin(ph + nu * tt) * emb(PAULI["Y"], q)
-                        return M
-                    terms_np.append(Hd)
-                    desc["parts"].append({"drive_wires": dw, "amplitude": a_d, "phase": ph_d, "freq": fr_d})
-
-            def build():
-                H = pieces[0]
-                for pc in pieces[1:]:
-                    H = H + pc
-                return H
-            H = guarded("pulse.hardware", hw + ":construct", build, desc)
-            if H is None:
-                continue
-            Href = lambda tt: sum(f(tt) for f in terms_np)  # noqa: E731
-            got = guarded("pulse.hardware", hw + ":matrix", lambda: np.asarray(qp.matrix(H(params, t), wire_order=wires)), desc)
-            if got is not None:
-                ref = Href(t)
-                compare("pulse.hardware", hw + ":H(params,t)", got, ref, 1e-9 * max(1.0, float(np.max(np.abs(ref)))), desc,
-                        nontrivial=len(params) > 0)
-            # evolution (short window: the transmon frequencies are large)
-            if ctx.more() and (ci // 8) % 3 == 0:
-                T = 0.3 if hw == "transmon" else 0.5
-                U = guarded("pulse.hardware", hw + ":evolve", lambda: np.asarray(qp.matrix(qp.evolve(H)(params, t=[0.0, T], atol=1e-11, rtol=1e-11), wire_order=wires)), desc)
-                if U is not None:
-                    Uref = ref_propagator(Href, 0.0, T, 2 ** n)
-                    compare("pulse.hardware", hw + ":evolve", U, Uref, 1e-6, {**desc, "T": T})
+                def build():
+                    H = pieces[0]
+                    for pc in pieces[1:]:
+                        H = H + pc
+                    return H
+                H = guarded("pulse.hardware", hw + ":construct", build, desc)
+                if H is None:
+                    continue
+                Href = lambda tt: sum(f(tt) for f in terms_np)  # noqa: E731
+                got = guarded("pulse.hardware", hw + ":matrix", lambda: np.asarray(qp.matrix(H(params, t), wire_order=wires)), desc)
+                if got is not None:
+                    ref = Href(t)
+                    compare("pulse.hardware", hw + ":H(params,t)", got, ref, 1e-9 * max(1.0, float(np.max(np.abs(ref)))), desc,
+                            nontrivial=len(params) > 0)
+                # evolution (short window: the transmon frequencies are large)
+                if ctx.more() and (ci // 8) % 3 == 0 and rep == 0:
+                    T = 0.3 if hw == "transmon" else 0.5
+                    U = guarded("pulse.hardware", hw + ":evolve", lambda: np.asarray(qp.matrix(qp.evolve(H)(params, t=[0.0, T], atol=1e-11, rtol=1e-11), wire_order=wires)), desc)
+                    if U is not None:
+                        Uref = ref_propagator(Href, 0.0, T, 2 ** n)
+                        compare("pulse.hardware", hw + ":evolve", U, Uref, 1e-6, {**desc, "T": T})
             continue
 
         # ======================================================================================= generic parametrized Hamiltonians
@@ -457,7 +460,7 @@ def run(ctx):
             continue
         Uavg = expm(-1j * sum(Href_used(t0 + (k + 0.5) * T / 16) for k in range(16)) / 16 * T)
         nontriv = bool(np.max(np.abs(Uref - np.eye(2 ** nn))) > 1e-3 and np.max(np.abs(Uref - Uavg)) > 1e-4)
-        variant = int(rng.integers(4))
+        variant = (ci // 8 + ctx.shard) % 4
         if kind == "ode-circuit":
             # state evolved by default.qubit (apply_operation path), preceded by a few gates
             pre = [(str(rng.choice(["RX", "RY"])), float(np.round(rng.uniform(-2, 2), 3)), int(w)) for w in used]
@@ -491,11 +494,11 @@ def run(ctx):
         else:                 # intermediate times, with / without complementary
             mids = sorted(float(v) for v in np.round(rng.uniform(t0, t1, size=int(rng.integers(1, 3))), 3))
             tl = [t0] + [m for m in mids if t0 < m < t1] + [t1]
-            comp = bool(rng.random() < 0.5)
             Us = ref_propagator(Href_used, t0, t1, 2 ** nn, t_eval=tl)
-            ref = np.stack([Us[-1] @ Uk.conj().T for Uk in Us]) if comp else np.stack(Us)
-            U = guarded("evolve.ode", "evolve:intermediate", lambda: np.asarray(qp.matrix(
-                qp.evolve(H)(params, t=tl, return_intermediate=True, complementary=comp, atol=1e-11, rtol=1e-11), wire_order=wo)), desc)
-            if U is not None:
-                compare("evolve.ode", "evolve:intermediate" + (":complementary" if comp else ""), U, ref, 1e-7, {**desc, "times": tl, "complementary": comp},
-                        nontrivial=nontriv)
+            for comp in (False, True):
+                ref = np.stack([Us[-1] @ Uk.conj().T for Uk in Us]) if comp else np.stack(Us)
+                U = guarded("evolve.ode", "evolve:intermediate", lambda comp=comp: np.asarray(qp.matrix(
+                    qp.evolve(H)(params, t=tl, return_intermediate=True, complementary=comp, atol=1e-11, rtol=1e-11), wire_order=wo)), desc)
+                if U is not None:
+                    compare("evolve.ode", "evolve:intermediate" + (":complementary" if comp else ""), U, ref, 1e-7,
+                            {**desc, "times": tl, "complementary": comp}, nontrivial=nontriv)
